@@ -36,6 +36,9 @@ let program_and_obs (c : Caseio.case) : prog * nat list =
       let ops = List.map hop_of_token (words c "ops") in
       (case_history (n "ssz") ops, obs_history (n "ssz") h_init ops)
   | "grid" -> (case_grid (n "nx") (n "ny") (n "n") (lay c "" 0), obs_grid (n "nx") (n "ny") (n "n"))
+  | "psaug" ->
+      let l = lay c "" 0 in
+      (case_psaug l (n "comps") (n "qr") (n "qc") (n "qr2") (n "qc2"), obs_psaug l (n "comps") (n "qr") (n "qc") (n "qr2") (n "qc2"))
   | "sigma" -> let l = lay c "" (mi c "noise") in (case_sigma l (n "comps"), sigma_out l (n "comps"))
   | "ut" ->
       let li = lay c "i" (mi c "inoise") and lo = lay c "o" 0 in
@@ -46,18 +49,19 @@ let program_and_obs (c : Caseio.case) : prog * nat list =
       (case_kfp (n "d") lp (n "comps") lq (n "compsq"), obs_kfp lq (n "compsq"))
   | "kfc" ->
       let lp = lay c "p" 0 and lq = lay c "q" 0 in
-      (case_kfc (n "m") (n "n") lp (n "comps") lq (n "compsq") (n "yr") (n "yc"), obs_kfc (n "comps") lq (n "compsq"))
+      (case_kfc (n "m") (n "n") lp (n "comps") lq (n "compsq") (n "yr") (n "yc") (mb c "again"),
+       obs_kfc lp (n "comps") lq (n "compsq") (mb c "again"))
   | "ukfp" ->
       let lp = lay c "p" 0 and ls = lay c "s" 0 in
       (case_ukfp (mb c "additive") lp (n "comps") (n "q") ls, ukfp_out (n "comps") ls)
   | "ukfc" ->
       let lp = lay c "p" 0 and lm = lay c "m" 0 and lq = lay c "q" 0 in
-      (case_ukfc (mb c "additive") lp (n "comps") (n "r") (mb c "valid") lm (n "ir") lq (n "compsq"),
-       obs_ukfc lp (n "comps") (mb c "valid") lq (n "compsq"))
+      (case_ukfc (mb c "additive") lp (n "comps") (n "r") (mb c "valid") lm (n "ir") lq (n "compsq") (mb c "again"),
+       obs_ukfc lp (n "comps") (mb c "valid") lq (n "compsq") (mb c "again"))
   | "sukf" ->
       let lp = lay c "p" 0 and lq = lay c "q" 0 in
-      (case_sukf lp (n "comps") (n "msz") (n "sub") (n "r") (n "ir") lq (n "compsq"),
-       obs_sukf lp (n "comps") (n "msz") (n "sub") lq (n "compsq"))
+      (case_sukf lp (n "comps") (n "msz") (n "sub") (n "r") (n "ir") lq (n "compsq") (mb c "again"),
+       obs_sukf lp (n "comps") (n "msz") (n "sub") lq (n "compsq") (mb c "again"))
   | "resample" ->
       let lc = lay c "c" 0 and lr = lay c "r" 0 in
       (case_resample lc (n "n") lr (n "nr") (n "np"), obs_resample lr (n "nr"))
